@@ -81,6 +81,15 @@ def optimal_grouping(R, L, h, p):
     '''
     N = len(p)
 
+    # numba cannot type arrays in non-native byte order (e.g. read from FITS files) and, depending on
+    # what it compiled earlier, may silently misread them: hand it native arrays
+    h = numpy.asarray(h)
+    p = numpy.asarray(p)
+    if not h.dtype.isnative:
+        h = h.astype(h.dtype.newbyteorder("="))
+    if not p.dtype.isnative:
+        p = p.astype(p.dtype.newbyteorder("="))
+
     # set initial best grouping to be (approx) equal splits 
     gamma_best = numpy.linspace(0,N,L+1,dtype=int)[1:-1]
     gamma_best, G_best = _optGroupingMinimization(gamma_best, h, p)
